@@ -407,6 +407,8 @@ func mayAuth(c *Conn) bool {
 //@ func (c *Conn) handleUnauthenticate(dec *imapwire.Decoder) (err error)
 //@   ensures c.state == old(c.state) || (old(authed(c)) && c.state == imap.ConnStateNotAuthenticated)
 //@   ensures c.state != old(c.state) ==> __called("SessionUnauthenticate.Unauthenticate") && !__failed("SessionUnauthenticate.Unauthenticate")
+//@   props C06:post
+//@   ensures[C06] old(c.enabled) != nil ==> c.enabled != nil
 
 //@ func (c *Conn) handleSelect(tag string, dec *imapwire.Decoder, readOnly bool) (err error)
 //@   props C04:post,pre@call
@@ -502,12 +504,15 @@ func isStartTLSConn(conn net.Conn) bool {
 // ---------------------------------------------------------------------------
 // C07: Poll dequeues a prefix of the queue, in order, and without permission
 // to report expunges exactly the longest expunge-free prefix; the remaining
-// queue is the untouched suffix.
+// queue is the untouched suffix. When everything is dequeued the tracker gives
+// up the storage of the dequeued updates (updates queued while they are being
+// written must not overwrite them).
 
 //@ func (t *SessionTracker) Poll(w *UpdateWriter, allowExpunge bool) (err error)
 //@   props C07:post,inv-init,inv-step,terminates,pre@call
 //@   requires t != nil && w != nil
 //@   ensures allowExpunge ==> len(t.queue) == 0
+//@   ensures allowExpunge ==> __base(t.queue) == 0
 //@   ensures !allowExpunge ==> len(t.queue) <= old(len(t.queue))
 //@   ensures !allowExpunge ==> forall j int :: 0 <= j && j < len(t.queue) ==> __same(t.queue[j], old(t.queue)[j+(old(len(t.queue))-len(t.queue))])
 //@   ensures !allowExpunge ==> forall j int :: 0 <= j && j < old(len(t.queue))-len(t.queue) ==> old(t.queue[j].expunge) == 0
@@ -924,3 +929,12 @@ func matchListSpec(name string, delim rune, reference, pattern string) bool {
 //@ func MatchList(name string, delim rune, reference, pattern string) (result bool)
 //@   props C20:post,pre@call
 //@   ensures result == matchListSpec(name, delim, reference, pattern)
+
+// Closing a FETCH message response releases the connection's encoder (and its
+// lock) on every path, also when writing the end of the response failed -
+// otherwise the next response would wait for the lock for ever and the
+// connection's goroutine would never finish.
+//
+//@ func (w *FetchResponseWriter) Close() (err error)
+//@   props C06:post
+//@   ensures old(w.enc) != nil ==> __called("responseEncoder.end") && w.enc == nil
